@@ -240,6 +240,39 @@ def run(ctx, rep):
             rep.violation('X4', vkey('X4', F32.name, 'reserved-bits', ''), F32.loc(F32.span),
                           'Fat32::set does not merge the old entry\'s reserved top four bits (& 0xF000_0000) into the '
                           'value it stores')
+    # X4b: the old entry that Fat32::set reads back still has its reserved bits (the reader it uses does not mask them away)
+    if F32 is not None:
+        from intervals import Analysis, FnCtx
+        readers = {t.get('callee') for b, t in F32.calls() if (t.get('callee') or '').endswith('::get_raw')}
+        for rname in sorted(r for r in readers if r):
+            RD = facts.fns.get(rname)
+            if RD is None or not RD.blocks:
+                # a call through the trait (`Self::get_raw`): the implementation next to this `set`
+                rname = F32.name.rsplit('::', 1)[0] + '::' + rname.rsplit('::', 1)[-1]
+                RD = facts.fns.get(rname)
+            if RD is None:
+                rep.machinery('ANCHOR-MISSING raw reader used by Fat32::set (%s)' % rname)
+                continue
+            an = Analysis(facts, RD, FnCtx({}, {}, set()), {}, 0)
+            hi = None
+            for bi in RD.reachable():
+                for s_ in RD.blocks[bi]['stmts']:
+                    if s_['k'] == 'assign' and s_['rv']['k'] == 'agg' and s_['rv'].get('variant') == 'Ok' and \
+                            s_['rv'].get('adt', '').endswith('result::Result') and s_['rv']['ops']:
+                        st_, _ = an.state_before_term(bi)
+                        iv = an.read_operand(st_, s_['rv']['ops'][0]) if st_ is not None else None
+                        if iv is None:
+                            hi = 0xFFFFFFFF
+                        else:
+                            hi = iv[1] if hi is None else max(hi, iv[1])
+            ok = hi is None or hi >= 0xF0000000
+            rep.oblige('X4', rname + '|unmasked', ok=ok, nontrivial=True,
+                       sample={'fn': rname, 'largest value the raw reader can return': hex(hi) if hi is not None else 'not an integer payload'})
+            if not ok:
+                rep.violation('X4', vkey('X4', rname, 'raw-reader-masks', ''), RD.loc(RD.span),
+                              'the raw entry reader that Fat32::set uses to read the old entry can only return values up to %s: the '
+                              'reserved top four bits are already masked away, so `old & 0xF000_0000` is always 0 and every update '
+                              'clears them on disk' % hex(hi))
     F12 = facts.fns.get('<fatfs::table::Fat<u8> as fatfs::table::FatTrait>::set_raw')
     if F12 is None:
         rep.machinery('ANCHOR-MISSING Fat12::set_raw')
